@@ -3,7 +3,7 @@
 cd "$(dirname "$0")/.."
 for d in "$@"; do
   p=$(echo $d | cut -c1-3)
-  python3 tools/seedverify.py seeded/$d $p 2>&1 | python3 -c "
+  python3 tools/seedverify.py seeded/$d $p $REVERIFY_FLAGS 2>&1 | python3 -c "
 import sys,json
 t=sys.stdin.read()
 try:
